@@ -15,6 +15,7 @@ package p9p
 //@ ensures range: result >= -1 && result <= len(args)
 //@ ensures valid: result >= 0 <==> (forall(j, 0, len(args), okName(args[j])) && forall(j, 0, len(args), args[j] == ".." ==> forall(m, 0, j, args[m] == "..")))
 //@ ensures lead: result >= 0 ==> forall(j, 0, result, args[j] == "..") && forall(j, result, len(args), args[j] != "..")
+//@ ensures last_lead: result > 0 ==> args[result-1] == ".."
 //@ loop 1 invariant 0 <= n && n <= $done && $done <= len(args)
 //@ loop 1 invariant forall(j, 0, $done, okName(args[j]))
 //@ loop 1 invariant forall(j, 0, n, args[j] == "..") && forall(j, n, $done, args[j] != "..")
@@ -33,6 +34,38 @@ package p9p
 //@ loop 1 invariant forall(j, 0, $done, !sep(args[j]))
 //@ loop 1 invariant forall(j, 0, lo, ans[j] == "..") && forall(j, lo, cursor, plain(ans[j]))
 //@ loop 1 invariant forall L int :: 0 <= L && L <= len(args) && forall(j, 0, L, old(args[j]) == "..") && forall(j, L, len(args), plain(old(args[j]))) ==> cursor == $done && lo == min($done, L) && forall(j, 0, $done, ans[j] == old(args[j]))
+
+// Library facts about path/strings used by the path helpers. Trusted here; checked against the real
+// library by exhaustive enumeration up to a stated bound (labelled bounded) in /verif/tools/stdlib_lemmas_test.go.
+//@ axiom [pathlib] isabs_len: forall p string :: {path.IsAbs(p)} path.IsAbs(p) ==> len(p) >= 1
+
+//@ axiom [pathlib] count_nonneg: forall s string, t string :: {strings.Count(s, t)} strings.Count(s, t) >= 0
+
+//@ pure depthOf(dir string) int = strings.Count(dir[0:len(dir)-1], "/")
+
+//@ func WalkName
+//@ property C16 C15
+//@ use pathlib
+//@ let VALID = (forall(j, 0, len(names), okName(names[j])) && forall(j, 0, len(names), names[j] == ".." ==> forall(m, 0, j, names[m] == "..")))
+//@ let NOCLIMB = forall(j, 0, len(names), names[j] == ".." ==> j < depthOf(dir))
+//@ requires path.IsAbs(dir)
+//@ ensures accepts_exactly: err == nil <==> VALID && NOCLIMB
+//@ ensures rejected_unchanged: err != nil ==> result0 == dir && typeis(err, MessageRerror)
+//@ ensures resolved: err == nil ==> result0 == path.Join(dir, path.Join(names))
+
+//@ func CreateName
+//@ property C16 C15
+//@ ensures accepts_exactly: err == nil <==> plain(name)
+//@ ensures rejected: err != nil ==> result0 == "" && typeis(err, MessageRerror)
+//@ ensures resolved: err == nil ==> result0 == path.Join(dir, name)
+
+//@ func ToWalk
+//@ property C16
+//@ ensures abs: isAbs == path.IsAbs(p)
+//@ ensures names_safe: err == nil ==> forall(j, 0, len(steps), okName(steps[j]))
+//@ ensures abs_never_climbs: err == nil && isAbs ==> forall(j, 0, len(steps), plain(steps[j]))
+//@ ensures dotdot_only_leading: err == nil ==> forall(j, 0, len(steps), steps[j] == ".." ==> forall(m, 0, j, steps[m] == ".."))
+//@ ensures failure: err != nil ==> len(steps) == 0 && typeis(err, MessageRerror)
 
 // ---------------------------------------------------------------- transport.go (C05)
 
